@@ -62,6 +62,9 @@ def run(rep):
     for T, bb, t in gated:
         F |= mir.reachable_fns([cname(t)])
     rep.analysed = {'top_level': tops, 'formatter_functions': sorted(F), 'bodies': len(mir.bodies)}
+    # the options reach the generating function and its sections exactly as the caller gave them (shared MIR rule, lib/wrappers.py)
+    from wrappers import check_option_passthrough
+    check_option_passthrough(rep, 'C19.options-passthrough')
     # ---- a: same token stream to both printers ----------------------------------------------------------------
     for T, bb, t in gated:
         g = [x for x in guards(T, bb)]
